@@ -40,7 +40,10 @@ LEVEL_NOTE = ('theorems are about the Gallina model Model/PrimEq.v (+ Model/Impl
               'log(centers) enters as a table; scope: include_vertical_advection=True (the default) - with the option off '
               'the code drops the vertical advection of T\' but keeps that of T_ref (explicitly and inside H), so totals '
               'differ for non-uniform profiles (correspondence still covers the option); the cloud-moist class with '
-              'non-zero condensate is a registered known finding (fixed runner cloud_nonzero)')
+              'non-zero condensate is a registered known finding (fixed runner cloud_nonzero); oracles also hand the profile '
+              'over as int64/int32/strided/read-only arrays and re-use one equation object across profile changes '
+              '(re-bound field, in-place overwrite, dataclasses.replace); a float32 profile in x64 mode is NOT covered: '
+              'on the pinned tree it already differs from the float64 profile by ~4e-8 relative')
 TECHNIQUE = 'proof+differential-correspondence+metamorphic-oracle'
 
 CLOUD_CLAUSE = 'cloud-moist class: total tendency independent of T_ref with non-zero cloud condensate'
@@ -87,11 +90,24 @@ def tracer_names(cls, ntr):
     return names + ['tracer_%d' % i for i in range(ntr)]
 
 
-def make_eq(cls, Tref, oro, coords, va=True, method=None):
+def present_profile(T, how='float64'):
+    """the reference profile as the caller hands it to the equation class: same values, different
+    numpy presentation (integer dtypes need integral values)"""
+    t = np.array(T, dtype=np.float64)      # always a private copy
+    if how in ('int64', 'int32'):
+        assert np.all(t == np.round(t))
+        return t.astype(how)
+    if how == 'strided': return np.repeat(t, 2)[::2]
+    if how == 'readonly':
+        t = t.copy(); t.setflags(write=False); return t
+    return t
+
+
+def make_eq(cls, Tref, oro, coords, va=True, method=None, how='float64'):
     j = J(); pe = j['pe']
     C = {'dry': pe.PrimitiveEquations, 'time': pe.PrimitiveEquationsWithTime, 'moist': pe.MoistPrimitiveEquations,
          'cloud': pe.MoistPrimitiveEquationsWithCloudMoisture}[cls]
-    return C(np.asarray(Tref, dtype=np.float64), oro, coords, j['specs'], vertical_matmul_method=method,
+    return C(present_profile(Tref, how), oro, coords, j['specs'], vertical_matmul_method=method,
              include_vertical_advection=bool(va))
 
 
@@ -186,6 +202,29 @@ def generate(ctx):
         t1 = profile(K, True)
         yield 'oracle', {'cls': cls, 'grid': 'g5', 'K': K, 'b': levels(K, r), 'T1': t1, 'T2': [t1[0] + 7.5 + r] * K,
                          'oro': r % 2, 'ntr': r % 2, 'va': 0, 'seed': int(rng.integers(1 << 30)), 'lmax': 9, 'amp': 1.0}
+    # the profile handed over in other numpy presentations (integer dtypes, strided view, read-only): same values
+    def int_profile(K):
+        return [float(v) for v in (250 + rng.integers(-45, 46, size=K))]
+    hplan = [('dry', 5, 'int64', 2), ('moist', 3, 'int64', 0), ('time', 4, 'int32', 1), ('dry', 3, 'strided', 0), ('moist', 2, 'readonly', 0)]
+    if not quick:
+        hplan = [(c, K, h, e) for c in ('dry', 'time', 'moist', 'cloud') for (K, e) in ((2, 0), (5, 2), (6, 2), (4, 0))
+                 for h in ('int64', 'int32', 'strided', 'readonly')]
+    for r, (cls, K, how, even) in enumerate(hplan):
+        ctx.count('oracle:profile-presentation-' + how)
+        bb = levels(K, even)
+        yield 'oracle', {'cls': cls, 'grid': 'g5', 'K': K, 'b': bb, 'T1': int_profile(K), 'T2': profile(K), 'how1': how,
+                         'oro': r % 2, 'ntr': 0, 'va': 1, 'seed': int(rng.integers(1 << 30)), 'lmax': 9, 'amp': 1.0}
+        if r < 3 or not quick:
+            yield 'oracle', {'cls': cls, 'grid': 'g5', 'K': K, 'b': bb, 'T1': int_profile(K), 'T2': int_profile(K), 'how1': how, 'how2': how,
+                             'oro': 1, 'ntr': 0, 'va': 1, 'seed': int(rng.integers(1 << 30)), 'lmax': 2, 'amp': 1.0}
+            yield 'corr', {'cls': cls, 'grid': 'g5', 'K': K, 'b': bb, 'Tref': int_profile(K), 'how': how, 'oro': 0, 'ntr': 0, 'va': 1,
+                           'seed': int(rng.integers(1 << 30)), 'nodes': 4, 'sparse': r % 2}
+    # state carried across calls on one equation object
+    for r, (cls, K) in enumerate([('dry', 3), ('time', 2), ('moist', 3), ('cloud', 2)] if quick else
+                                 [(c, K) for c in ('dry', 'time', 'moist', 'cloud') for K in (1, 3, 5)]):
+        ctx.count('object_reuse:' + cls)
+        yield 'object_reuse', {'cls': cls, 'grid': 'g5', 'K': K, 'b': levels(K, r), 'TA': profile(K, r % 2 == 1), 'TB': profile(K),
+                               'oro': r % 2, 'ntr': r % 2, 'seed': int(rng.integers(1 << 30)), 'lmax': 9, 'amp': 1.0}
     yield 'cloud_nonzero', dict(CLOUD_ARGS)
 
 
@@ -216,7 +255,7 @@ def r_corr(ctx, a):
     K = coords.vertical.layers; cls = a['cls']; va = int(a['va'])
     Tref = np.asarray(a['Tref'], dtype=np.float64)
     f = base_fields(a, grid, K)
-    eq = make_eq(cls, Tref, f['oro'], coords, va, 'sparse' if a.get('sparse') else 'dense')
+    eq = make_eq(cls, Tref, f['oro'], coords, va, 'sparse' if a.get('sparse') else 'dense', a.get('how', 'float64'))
     Tp = f['Tdev'] + (250.0 - Tref)[:, None, None] * j['ones'][a.get('grid', 'g5')]
     state = make_state(cls, f['vort'], f['div'], Tp, f['lnps'], f['tracers'])
     st0 = pe.State(f['vort'], f['div'], Tp, f['lnps'], f['tracers'])
@@ -382,9 +421,9 @@ def totals(a, cloud=None):
     K = coords.vertical.layers; cls = a['cls']
     f = base_fields(a, grid, K)
     res = []
-    for T in (a['T1'], a['T2']):
+    for T, how in ((a['T1'], a.get('how1', 'float64')), (a['T2'], a.get('how2', 'float64'))):
         Tref = np.asarray(T, dtype=np.float64)
-        eq = make_eq(cls, Tref, f['oro'], coords, a.get('va', 1))
+        eq = make_eq(cls, Tref, f['oro'], coords, a.get('va', 1), None, how)
         Tp = f['Tdev'] + (250.0 - Tref)[:, None, None] * j['ones'][a.get('grid', 'g5')]
         st = make_state(cls, f['vort'], f['div'], Tp, f['lnps'], f['tracers'])
         e = eq.explicit_terms(st).asdict(); i = eq.implicit_terms(st).asdict()
@@ -487,5 +526,47 @@ def r_obligations(ctx, a):
         ctx.table_obligation('%s on grid %s (clipped fields, l <= L-2)' % (k, a['grid']), w <= tol * 64, {'relative_error': w})
 
 
-RUNNERS = {'corr': r_corr, 't_omega': r_t_omega, 'oracle': r_oracle, 'cloud_nonzero': r_cloud_nonzero,
+def r_object_reuse(ctx, a):
+    """State carried across calls: one equation object is evaluated with profile A, then its public field
+    `reference_temperature` is re-bound (and, separately, overwritten in place / dataclasses.replace'd) to B;
+    every tendency must equal that of a freshly constructed object with B, and explicit+implicit must still
+    be the one of the same atmosphere."""
+    import dataclasses
+    j = J()
+    grid, coords = coords_of(a)
+    K = coords.vertical.layers; cls = a['cls']
+    f = base_fields(a, grid, K)
+    TA = np.asarray(a['TA'], dtype=np.float64); TB = np.asarray(a['TB'], dtype=np.float64)
+    def ev(eq, Tref):
+        Tp = f['Tdev'] + (250.0 - Tref)[:, None, None] * j['ones'][a.get('grid', 'g5')]
+        st = make_state(cls, f['vort'], f['div'], Tp, f['lnps'], f['tracers'])
+        return flat(eq.explicit_terms(st).asdict()), flat(eq.implicit_terms(st).asdict())
+    fresh = ev(make_eq(cls, TB, f['oro'], coords), TB)
+    variants = {}
+    eq = make_eq(cls, TA, f['oro'], coords); first = ev(eq, TA)
+    eq.reference_temperature = present_profile(TB); variants['re-assigned field'] = ev(eq, TB)
+    eq = make_eq(cls, TA, f['oro'], coords); ev(eq, TA)
+    eq.reference_temperature[:] = TB; variants['in-place overwritten field'] = ev(eq, TB)
+    eq = make_eq(cls, TA, f['oro'], coords); ev(eq, TA)
+    variants['dataclasses.replace'] = ev(dataclasses.replace(eq, reference_temperature=present_profile(TB)), TB)
+    eq = make_eq(cls, TA, f['oro'], coords); ev(eq, TA)
+    eq.reference_temperature = present_profile(TB); ev(eq, TB)
+    eq.reference_temperature = present_profile(TA); variants_back = ev(eq, TA)
+    for name, (e, i) in variants.items():
+        for k in e:
+            sc_ = max(A(fresh[0][k]), A(fresh[1][k]), 1e-30)
+            fld = 'tracers' if k.startswith('tracers/') else k
+            ctx.oracle_close('object reuse (%s): explicit %s tendency equals a freshly constructed object' % (name, fld), e[k], fresh[0][k], scale=sc_)
+            ctx.oracle_close('object reuse (%s): implicit %s tendency equals a freshly constructed object' % (name, fld), i[k], fresh[1][k], scale=sc_)
+            ctx.oracle_close('object reuse (%s): explicit+implicit %s tendency is the same as with the first profile' % (name, fld),
+                             e[k] + i[k], first[0][k] + first[1][k], scale=max(sc_, A(first[0][k]), A(first[1][k])))
+    for k in first[0]:
+        sc_ = max(A(first[0][k]), A(first[1][k]), 1e-30)
+        fld = 'tracers' if k.startswith('tracers/') else k
+        ctx.oracle_close('object reuse (re-assigned back): explicit %s tendency equals the first evaluation' % fld, variants_back[0][k], first[0][k], scale=sc_)
+        ctx.oracle_close('object reuse (re-assigned back): implicit %s tendency equals the first evaluation' % fld, variants_back[1][k], first[1][k], scale=sc_)
+    ctx.oracle('reference profiles differ (test not vacuous)', a['TA'] != a['TB'], None)
+
+
+RUNNERS = {'object_reuse': r_object_reuse, 'corr': r_corr, 't_omega': r_t_omega, 'oracle': r_oracle, 'cloud_nonzero': r_cloud_nonzero,
            'obligations': r_obligations}
